@@ -585,7 +585,220 @@ def check_reject(case, srv, stats):
     stats.case(desc, ["family=" + fam.name, cls], True)
 
 
+# ---------------------------------------------------------------------------------------------
+# aspect 5: composed densities (mixtures, i.i.d. and independent products) and vector distributions
+
+SIMPLE = ["normal", "laplace", "gamma", "exponential", "cauchy", "pareto", "gev", "chi-squared", "poisson", "geometric", "binomial"]
+
+
+def vask(srv, family, p, dim, xs, ptype="Float64", wrap="", rinit=0.0, ints=()):
+    req = {"k": "vdist", "family": (wrap + ":" if wrap else "") + family, "type": ptype, "params": [fhex(v) for v in p], "order": dim,
+           "x": [fhex(x) for x in xs], "args": [fhex(rinit)], "ints": list(ints), "op": "logpdf"}
+    return srv.ask(req)
+
+
+@st.composite
+def spd(draw, n):
+    # L L^T with a moderate condition number
+    L = [[0.0] * n for _ in range(n)]
+    for i in range(n):
+        for j in range(i):
+            L[i][j] = draw(st.floats(-1, 1))
+        L[i][i] = draw(st.floats(0.5, 2.0))
+    return [[sum(L[i][k] * L[j][k] for k in range(n)) for j in range(n)] for i in range(n)]
+
+
+@st.composite
+def composed_cases(draw):
+    kind = draw(st.sampled_from(["vnormal", "vt", "iid", "id", "mix"]))
+    ptype = draw(st.sampled_from(["Float64", "Real64"]))
+    wrap = draw(st.sampled_from(["", "", "clone", "setget"]))
+    rinit = draw(st.sampled_from([0.0, 0.0, 4.5, -2.0]))
+    case = {"kind": kind, "ptype": ptype, "wrap": wrap, "rinit": rinit}
+    if kind in ("vnormal", "vt"):
+        n = draw(st.integers(1, 3))
+        case.update(n=n, mu=[draw(st.floats(-3, 3)) for _ in range(n)], sigma=draw(spd(n)),
+                    nu=draw(st.one_of(logu(2.0, 30), st.sampled_from([2.0, 3.0, 5.0]))),
+                    z=[[draw(st.floats(-4, 4)) for _ in range(n)] for _ in range(3)])
+        return case
+    k = draw(st.integers(1, 3))
+    if kind == "iid":
+        k = 1
+    fams = [draw(st.sampled_from(SIMPLE)) for _ in range(k)]
+    if kind == "mix":
+        # components of one kind of support make a proper mixture density either way; keep them continuous
+        fams = [draw(st.sampled_from(["normal", "laplace", "gamma", "exponential", "cauchy", "gev"])) for _ in range(k)]
+    ps = [[float(v) for v in draw(FAM[f].params)] for f in fams]
+    n = draw(st.integers(1, 4)) if kind == "iid" else (k if kind == "id" else 1)
+    us = [[draw(st.floats(1e-6, 1 - 1e-6)) for _ in range(n)] for _ in range(3)]
+    case.update(fams=fams, ps=ps, n=n, us=us, w=[draw(st.floats(0.05, 1.0)) for _ in range(k)], out=draw(logu(1e-3, 20)),
+                which=draw(st.integers(0, 3)))
+    return case
+
+
+def check_composed(case, srv, stats):
+    kind = case["kind"]
+    classes = ["kind=" + kind, "ptype=" + case["ptype"], "wrap=" + (case["wrap"] or "none")]
+    if kind in ("vnormal", "vt"):
+        n = case["n"]
+        with mp.workdps(40):
+            S = mp.matrix(case["sigma"])
+            mu = mp.matrix(case["mu"])
+            Lc = mp.cholesky(S)
+            Si = S ** -1
+            ld = mp.log(mp.det(S))
+            # points: mu + L z
+            pts = [list(mu + Lc * mp.matrix(z)) for z in case["z"]]
+            xs = [float(v) for pt in pts for v in pt]
+            if kind == "vnormal":
+                p = list(case["mu"]) + [v for row in case["sigma"] for v in row]
+                fam = "vnormal"
+            else:
+                p = [case["nu"]] + list(case["mu"]) + [v for row in case["sigma"] for v in row]
+                fam = "vt"
+            desc = "%s%s dim %d %s(%s) [%s]" % ((case["wrap"] + ":") if case["wrap"] else "", fam, n, "nu=%r " % case["nu"] if kind == "vt" else "", p, case["ptype"])
+            resp = vask(srv, fam, p, n, xs, case["ptype"], case["wrap"], case["rinit"])
+            got = values(resp, desc)
+            for i, g in enumerate(got):
+                x = mp.matrix([mpf(v) for v in xs[i * n:(i + 1) * n]])
+                d = x - mu
+                q = (d.T * Si * d)[0]
+                if kind == "vnormal":
+                    terms = [-mpf(n) / 2 * mp.log(2 * mp.pi), -ld / 2, -q / 2]
+                else:
+                    nu = mpf(case["nu"])
+                    terms = [lg((nu + n) / 2), -lg(nu / 2), -mpf(n) / 2 * mp.log(nu * mp.pi), -ld / 2, -(nu + n) / 2 * mp.log1p(q / nu)]
+                ref = mp.fsum(terms)
+                sc = 1 + mp.fsum(abs(t) for t in terms)
+                if math.isnan(g) or abs(mpf(g) - ref) > mpf(10) ** -9 * sc:
+                    raise Violation("%s: LogPdf(%r) = %r, the textbook log-density is %s" % (desc, xs[i * n:(i + 1) * n], g, mp.nstr(ref, 17)))
+        stats.case(desc, classes + ["dim=%d" % n], True)
+        return
+    fams, ps, n = case["fams"], case["ps"], case["n"]
+    F = [FAM[f] for f in fams]
+    flat = [v for p in ps for v in p]
+    ints = [len(p) for p in ps]
+    if kind == "iid":
+        family, p, comp = "iid:" + fams[0], ps[0], [0] * n
+    elif kind == "id":
+        family, p, comp = "id:" + "|".join(fams), flat, list(range(n))
+    else:
+        family, p, comp = "mix:" + "|".join(fams), list(case["w"]) + flat, None
+    desc = "%s%s dim %d (%s) [%s]" % ((case["wrap"] + ":") if case["wrap"] else "", family, n, p, case["ptype"])
+    pts = []
+    for us in case["us"]:
+        if kind == "mix":
+            j = case["which"] % len(F)
+            c = inside_points(F[j], tuple(ps[j]), [us[0]])
+            if c:
+                pts.append(c)
+        else:
+            row = []
+            for i in range(n):
+                c = inside_points(F[comp[i]], tuple(ps[comp[i]]), [us[i]])
+                if not c:
+                    row = None
+                    break
+                row.append(c[0])
+            if row:
+                pts.append(row)
+    if not pts:
+        stats.case(desc, ["no interior point (not evaluated)"], False)
+        return
+    dim = 1 if kind == "mix" else n
+    resp = vask(srv, family, p, n, [v for pt in pts for v in pt], case["ptype"], case["wrap"], case["rinit"], ints)
+    got = values(resp, desc)
+    with mp.workdps(40):
+        for pt, g in zip(pts, got):
+            if kind == "mix":
+                w = [mpf(v) for v in case["w"]]
+                tot = mp.fsum(w)
+                parts = []
+                for j, fam in enumerate(F):
+                    lo, hi = fam.support(tuple(ps[j]))
+                    x = pt[0]
+                    if x <= lo or x >= hi:
+                        if x == lo or x == hi:
+                            parts = None
+                            break
+                        continue
+                    parts.append(mp.log(w[j] / tot) + mp.fsum(fam.terms(tuple(ps[j]), mpf(x))))
+                if not parts:
+                    continue
+                m = max(parts)
+                ref = m + mp.log(mp.fsum(mp.exp(t - m) for t in parts))
+                sc = 1 + abs(ref) + max(abs(t) for t in parts)
+            else:
+                terms = [t for i in range(n) for t in F[comp[i]].terms(tuple(ps[comp[i]]), mpf(pt[i]))]
+                ref = mp.fsum(terms)
+                sc = 1 + mp.fsum(abs(t) for t in terms)
+            if math.isnan(g) or abs(mpf(g) - ref) > mpf(10) ** -9 * sc:
+                raise Violation("%s: LogPdf(%r) = %r, the log-density of the composition is %s" % (desc, pt, g, mp.nstr(ref, 17)))
+    # one coordinate outside the support of its factor: -Inf (or a refusal)
+    if kind != "mix":
+        j = case["which"] % n
+        lo, hi = F[comp[j]].support(tuple(ps[comp[j]]))
+        if lo != -INF:
+            bad = list(pts[0])
+            bad[j] = lo - case["out"] * max(1.0, abs(lo))
+            if F[comp[j]].discrete:
+                bad[j] = float(math.floor(bad[j]))
+            resp = vask(srv, family, p, n, bad, case["ptype"], case["wrap"], case["rinit"], ints)
+            if "panic" in resp or "died" in resp:
+                raise Violation("%s: LogPdf(%r): the library failed: %s" % (desc, bad, str(resp)[:300]))
+            g = values(resp, desc)[0]
+            if not (g == -INF or (math.isnan(g) and resp.get("evalerr"))):
+                raise Violation("%s: LogPdf(%r) = %r although coordinate %d is outside the support (expected -Inf)" % (desc, bad, g, j))
+            classes.append("a coordinate outside the support")
+    elif len(F) >= 1:
+        # total mass of the mixture: panels from the quantiles of every component
+        edges = set()
+        ok = True
+        for j, fam in enumerate(F):
+            q = quadrature(fam, tuple(ps[j]), U_GRID[::4])
+            if q is None:
+                ok = False
+                break
+            edges.add(q[3])
+            edges.add(q[4])
+        if ok:
+            nodes, ws, expect = [], [], 0.0
+            tot = sum(case["w"])
+            for j, fam in enumerate(F):
+                # integrate the mixture density restricted to where component j dominates is not possible
+                # without the answer; instead integrate over the union grid: each component's own panels
+                # weighted by a partition of unity is avoided by using all panel edges together
+                pass
+            allq = []
+            for j, fam in enumerate(F):
+                fr = fam.frozen(tuple(ps[j]))
+                lo, hi = fam.support(tuple(ps[j]))
+                with np.errstate(all="ignore"):
+                    qq = np.asarray(fr.ppf(U_GRID), dtype=float)
+                qq = qq[np.isfinite(qq) & (np.abs(qq) < 1e150)]
+                allq.append(qq)
+            qs = np.unique(np.concatenate(allq))
+            # keep away from the support ends of every component (densities may be singular there)
+            ends = [e for j, fam in enumerate(F) for e in fam.support(tuple(ps[j])) if math.isfinite(e)]
+            a, b = qs[:-1], qs[1:]
+            keep = np.ones(len(a), dtype=bool)
+            mid, half = (a + b) / 2, (b - a) / 2
+            nd = (mid[:, None] + half[:, None] * GL_X[None, :]).ravel()
+            wq = (half[:, None] * GL_W[None, :]).ravel()
+            lp = np.array(values(vask(srv, family, p, n, [float(v) for v in nd], case["ptype"], case["wrap"], case["rinit"], ints), desc))
+            if not np.any(np.isnan(lp)):
+                total = float(np.sum(np.exp(lp) * wq))
+                stats.note("largest |mixture mass - 1|", abs(total - 1))
+                # singular component densities (gamma shapes below 1) and the union grid limit the quadrature
+                smooth = all(not (f.name in ("gamma", "chi-squared") and ps[j][0] < 1.0) for j, f in enumerate(F))
+                if smooth and abs(total - 1) > 1e-4:
+                    raise Violation("%s: the mixture density integrates to %r, not to 1" % (desc, total))
+                classes.append("mixture mass")
+    stats.case(desc + " x=%r" % pts, classes + ["components=" + "+".join(sorted(set(fams)))[:60]], True)
+
+
 ASPECTS = {
+    "composed_and_vector": (composed_cases(), check_composed),
     "logpdf_formula_and_support": (formula_cases(), check_formula),
     "normalisation": (norm_cases(), check_normalisation),
     "cdf_consistency": (cdf_cases(), check_cdf),
@@ -627,6 +840,9 @@ WITNESSES = {
     "gev_cdf_above": _w("C14/gev-gpareto-cdf-above-the-support", "gev", (0.0, 1.0, -0.5), "cdf", 5.0, _far(1.0)),
     "categorical_logcdf": _w("C14/categorical-logcdf-starts-from-log-1", "categorical", (0.25, 0.25, 0.5), "cdf", 1.0, _far(0.5)),
     "chisquared_k0": _accepts("C14/chi-squared-power-law-parameter-ranges", "chi-squared", (0.0,)),
+    "t_parameter_layout": (lambda srv: ("C14/t-distribution-getparameters-omits-nu",
+                                         "r" not in vask(srv, "vt", [3.0, 0.5, 2.0], 1, [0.25], "Float64", "setget"),
+                                         "SetParameters(GetParameters()) of a t distribution")),
     "nan_parameter": _accepts("C14/constructors-accept-nan-parameters", "normal", (float("nan"), 1.0)),
 }
 
@@ -643,10 +859,10 @@ if __name__ == "__main__":
 
         def keyf(case, msg):
             kind = "other"
-            for k in ("outside the support", "textbook", "integrates", "sums", "monotone", "Cdf(", "LogCdf(", "accepted", "failed", "rejected"):
+            for k in ("outside the support", "textbook", "composition", "integrates", "sums", "monotone", "Cdf(", "LogCdf(", "accepted", "failed", "rejected"):
                 if k in msg:
                     kind = k
                     break
-            return case["family"] + " / " + kind + ((" / " + case.get("wrap")) if case.get("wrap") else "")
+            return case.get("family", case.get("kind", "")) + "+".join(case.get("fams", [])) + " / " + kind + ((" / " + case.get("wrap")) if case.get("wrap") else "")
         ASPECTS = {k: (s, sweep(c, keyf)) for k, (s, c) in ASPECTS.items()}
     sys.exit(main(ASPECTS, WITNESSES))
